@@ -1,6 +1,7 @@
 package rules
 
 import (
+	"go/token"
 	"encoding/binary"
 	"fmt"
 	"go/ast"
@@ -112,7 +113,110 @@ func rawTables(c *Ctx) map[string][]cbpf.Ins {
 			}
 		}
 	}
+	// tables assembled at package initialisation from a literal []bpf.Instruction (directly, or through a helper that hands its
+	// argument to bpf.Assemble and returns the result): the literal is read in its symbolic form; all operands must be constant
+	if sp := c.P.SSAPkgs["packets"]; sp != nil {
+		if initFn := sp.Func("init"); initFn != nil {
+			for _, b := range initFn.Blocks {
+				for _, in := range b.Instrs {
+					st, ok := in.(*ssa.Store)
+					if !ok {
+						continue
+					}
+					g, ok := st.Addr.(*ssa.Global)
+					if !ok || !strings.HasSuffix(g.Type().String(), "[]golang.org/x/net/bpf.RawInstruction") {
+						continue
+					}
+					if _, done := out[g.Name()]; done {
+						continue
+					}
+					var lit *ssa.Slice
+					switch v := st.Val.(type) {
+					case *ssa.Call:
+						h := v.Common().StaticCallee()
+						if h != nil && core.InModule(h) && len(v.Common().Args) == 1 && assemblesParam(h) {
+							lit, _ = v.Common().Args[0].(*ssa.Slice)
+						}
+					case *ssa.Extract:
+						if call, ok := v.Tuple.(*ssa.Call); ok && v.Index == 0 {
+							if cal := call.Common().StaticCallee(); cal != nil && cal.Pkg != nil && strings.HasSuffix(cal.Pkg.Pkg.Path(), "net/bpf") && cal.Name() == "Assemble" {
+								lit, _ = call.Common().Args[0].(*ssa.Slice)
+							}
+						}
+					}
+					if lit == nil {
+						continue
+					}
+					arr, ok := lit.X.(*ssa.Alloc)
+					if !ok {
+						continue
+					}
+					name := g.Name()
+					key := "packets." + name + "#program"
+					n := int(arr.Type().Underlying().(*types.Pointer).Elem().Underlying().(*types.Array).Len())
+					var env *core.Env
+					for _, pa := range firstPath(initFn, b) {
+						env = core.NewEnv(c.P, pa)
+					}
+					if env == nil {
+						continue
+					}
+					sym, ok := symFromArray(c, env, arr, n, func(t *core.Term) *core.Term { return t }, "packets."+name, st.Pos())
+					if !ok {
+						continue
+					}
+					prog := make([]cbpf.Ins, len(sym))
+					allConst := true
+					for i, si := range sym {
+						prog[i] = si.ins
+						if si.sym != nil {
+							allConst = false
+						}
+					}
+					if !allConst {
+						c.R.Fail("R12.1", key, st.Pos(), "packets."+name, "a table assembled at initialisation has a non-constant operand: undecided")
+						continue
+					}
+					if err := cbpf.Validate(prog); err != nil {
+						c.R.Fail("R12.1", key, st.Pos(), "packets."+name, "program rejected: "+err.Error())
+						continue
+					}
+					c.R.OK("R12.1", key, st.Pos(), "packets."+name, fmt.Sprintf("%d instructions read from the literal handed to bpf.Assemble at initialisation, forward in-range jumps, ends in ret", len(prog)))
+					out[name] = prog
+				}
+			}
+		}
+	}
 	return out
+}
+
+// assemblesParam: h hands its only parameter to bpf.Assemble and returns that call's first result (whatever it does with the error).
+func assemblesParam(h *ssa.Function) bool {
+	if len(h.Params) != 1 || h.Signature.Results().Len() != 1 {
+		return false
+	}
+	var asm *ssa.Call
+	for _, b := range h.Blocks {
+		for _, in := range b.Instrs {
+			if call, ok := in.(*ssa.Call); ok {
+				if cal := call.Common().StaticCallee(); cal != nil && cal.Pkg != nil && strings.HasSuffix(cal.Pkg.Pkg.Path(), "net/bpf") && cal.Name() == "Assemble" && len(call.Common().Args) == 1 && call.Common().Args[0] == ssa.Value(h.Params[0]) {
+					asm = call
+				}
+			}
+		}
+	}
+	if asm == nil {
+		return false
+	}
+	for _, b := range h.Blocks {
+		if ret, ok := b.Instrs[len(b.Instrs)-1].(*ssa.Return); ok && len(ret.Results) == 1 {
+			ex, ok := ret.Results[0].(*ssa.Extract)
+			if !ok || ex.Tuple != ssa.Value(asm) || ex.Index != 0 {
+				return false
+			}
+		}
+	}
+	return true
 }
 
 // symIns is an instruction of the assembled filter whose K may be symbolic.
@@ -224,6 +328,31 @@ func tupleProgram(c *Ctx) ([]symIns, *ssa.Function, *ssa.Call) {
 		}
 		return t
 	}
+	prog, okProg := symFromArray(c, env, arr, n, liftSym, fn, asm.Pos())
+	if !okProg {
+		return nil, f, asm
+	}
+	plain := make([]cbpf.Ins, len(prog))
+	for i, s := range prog {
+		plain[i] = s.ins
+	}
+	if err := cbpf.Validate(plain); err != nil {
+		R.Fail("R12.1", fn+"#program", asm.Pos(), fn, "program rejected: "+err.Error())
+		return nil, f, asm
+	}
+	nsym := 0
+	for _, s := range prog {
+		if s.sym != nil {
+			nsym++
+		}
+	}
+	R.OK("R12.1", fn+"#program", asm.Pos(), fn, fmt.Sprintf("%d instructions extracted from the literal, %d symbolic operands", len(prog), nsym))
+	return prog, f, asm
+}
+
+// symFromArray reads a literal []bpf.Instruction (the backing array arr with n elements, evaluated with env) into symbolic form.
+func symFromArray(c *Ctx, env *core.Env, arr *ssa.Alloc, n int, liftSym func(*core.Term) *core.Term, fn string, pos token.Pos) ([]symIns, bool) {
+	R := c.R
 	elem := map[int]*core.Term{}
 	for _, r := range *arr.Referrers() {
 		ia, ok := r.(*ssa.IndexAddr)
@@ -244,8 +373,8 @@ func tupleProgram(c *Ctx) ([]symIns, *ssa.Function, *ssa.Call) {
 	for i := 0; i < n; i++ {
 		t := elem[i]
 		if t == nil || t.Op != "struct" {
-			R.Fail("R12.1", fn+"#program", asm.Pos(), fn, fmt.Sprintf("instruction %d is not a struct literal (%v): undecided", i, t))
-			return nil, f, asm
+			R.Fail("R12.1", fn+"#program", pos, fn, fmt.Sprintf("instruction %d is not a struct literal (%v): undecided", i, t))
+			return nil, false
 		}
 		ci := func(name string) (int64, bool) { return constInt(kvOf(t, name)) }
 		var si symIns
@@ -288,27 +417,12 @@ func tupleProgram(c *Ctx) ([]symIns, *ssa.Function, *ssa.Call) {
 			okc = false
 		}
 		if !okc || (si.ins.Kind == "ldabs" || si.ins.Kind == "ldind") && si.ins.Size != 1 && si.ins.Size != 2 && si.ins.Size != 4 {
-			R.Fail("R12.1", fn+"#program", asm.Pos(), fn, fmt.Sprintf("instruction %d (%s) has a non-constant or unsupported shape: undecided", i, t.String()))
-			return nil, f, asm
+			R.Fail("R12.1", fn+"#program", pos, fn, fmt.Sprintf("instruction %d (%s) has a non-constant or unsupported shape: undecided", i, t.String()))
+			return nil, false
 		}
 		prog = append(prog, si)
 	}
-	plain := make([]cbpf.Ins, len(prog))
-	for i, s := range prog {
-		plain[i] = s.ins
-	}
-	if err := cbpf.Validate(plain); err != nil {
-		R.Fail("R12.1", fn+"#program", asm.Pos(), fn, "program rejected: "+err.Error())
-		return nil, f, asm
-	}
-	nsym := 0
-	for _, s := range prog {
-		if s.sym != nil {
-			nsym++
-		}
-	}
-	R.OK("R12.1", fn+"#program", asm.Pos(), fn, fmt.Sprintf("%d instructions extracted from the literal, %d symbolic operands", len(prog), nsym))
-	return prog, f, asm
+	return prog, true
 }
 
 // evalSym evaluates a symbolic operand under a concrete configuration.
